@@ -50,6 +50,56 @@ func (ex *Executable) Validate(root *Root) (errs []error) {
 	for _, f := range ex.Fragments {
 		errs = append(errs, f.Validate(root)...)
 	}
+	errs = append(errs, ex.validateFragmentCycles()...)
+	return
+}
+
+// validateFragmentCycles reports fragments that spread themselves, directly
+// or through other fragments. Resolving such a fragment would never end.
+func (ex *Executable) validateFragmentCycles() (errs []error) {
+	const (
+		visiting = 1
+		done     = 2
+	)
+	state := map[*Fragment]int{}
+	var visit func(f *Fragment) bool
+	var walk func(sels []Selection) bool
+	walk = func(sels []Selection) bool {
+		for _, sel := range sels {
+			if fr, _ := sel.(*FragRef); fr != nil {
+				if fr.Fragment != nil && visit(fr.Fragment) {
+					return true
+				}
+				continue
+			}
+			if walk(sel.SelectionSet()) {
+				return true
+			}
+		}
+		return false
+	}
+	visit = func(f *Fragment) bool {
+		switch state[f] {
+		case visiting:
+			return true
+		case done:
+			return false
+		}
+		state[f] = visiting
+		cyclic := walk(f.Sels)
+		state[f] = done
+		return cyclic
+	}
+	names := make([]string, 0, len(ex.Fragments))
+	for name := range ex.Fragments {
+		names = append(names, name)
+	}
+	sort.Strings(names)
+	for _, name := range names {
+		if f := ex.Fragments[name]; visit(f) {
+			errs = append(errs, valError(f.line, f.col, "fragment %s spreads itself", f.Name))
+		}
+	}
 	return
 }
 
